@@ -426,6 +426,9 @@ func (g *gen) applyContract(st *State, con *Contract, args []*Val, rt types.Type
 		}
 	}
 	for _, c := range con.Ensures {
+		if c.Local {
+			continue
+		}
 		// a clause that mentions the callee's locals cannot be evaluated (or
 		// assumed) at a call site: it is skipped there
 		ne := len(g.specErrors)
